@@ -59,9 +59,11 @@ func (q *Queue[T]) Acquire(ctx context.Context, e T) (func(), error) {
 	q.queued = append(q.queued, &e)
 	q.wait = append(q.wait, &w)
 	q.mu.Unlock()
+	verifWait(w, ctx.Done())
 	// wait on both context and queue
 	select {
 	case <-ctx.Done():
+		verifYield("acquire-ctxdone")
 		// context abort, remove queued entry
 		q.mu.Lock()
 		if i := slices.Index(q.queued, &e); i >= 0 {
@@ -71,10 +73,12 @@ func (q *Queue[T]) Acquire(ctx context.Context, e T) (func(), error) {
 			return nil, ctx.Err()
 		}
 		q.mu.Unlock()
+		verifYield("acquire-ctxdone-race")
 		// queued entry found, assume race condition with context and entry being released, release next entry
 		q.release(&e)
 		return nil, ctx.Err()
 	case <-w:
+		verifYield("acquire-woken")
 		return q.releaseFn(&e), nil
 	}
 }
@@ -104,6 +108,7 @@ func (q *Queue[T]) TryAcquire(ctx context.Context, e T) (func(), error) {
 
 // release next entry or noop.
 func (q *Queue[T]) release(prev *T) {
+	verifYield("release")
 	q.mu.Lock()
 	defer q.mu.Unlock()
 	// remove prev entry from active list
@@ -196,8 +201,10 @@ func AcquireMulti[T any](ctx context.Context, e T, qList ...*Queue[T]) (context.
 			return ctx, nil, err
 		}
 		doneList[lockI] = done
+		verifYield("multi-first-acquired")
 		for i < len(qList) {
 			if i != lockI {
+				verifYield("multi-try")
 				doneList[i], err = qList[i].TryAcquire(ctx, e)
 				if doneList[i] == nil || err != nil {
 					acquired = false
@@ -210,6 +217,7 @@ func AcquireMulti[T any](ctx context.Context, e T, qList ...*Queue[T]) (context.
 			break
 		}
 		// cleanup on failed attempt
+		verifYield("multi-rollback")
 		if lockI > i {
 			doneList[lockI]()
 		}
